@@ -239,7 +239,11 @@ func (c *httpsCloner) putKV(kv dns.SVCBKeyValue) {
 // putIPs returns the underlying arrays of ips into c if possible.
 func (c *httpsCloner) putIPs(ips []net.IP) {
 	for _, ip := range ips {
-		if cap(ip) >= 16 {
+		// Only take the arrays of exactly the pooled size.  The hints of an
+		// unpacked message are subslices of a single array, so a larger
+		// capacity means that the following hints overlap with this one, and
+		// overlapping arrays must never get into the pool.
+		if cap(ip) == 16 {
 			c.ip.Put((*[16]byte)(ip[:16]))
 		}
 	}
